@@ -1,16 +1,20 @@
+import collections
 import copy
 from kvfile import KVFile
 
 
 def saver(resource, db, batch_size):
-    gen = db.insert_generator(
-        (('{:08x}'.format(idx), row)
-         for idx, row
-         in enumerate(resource)),
-        batch_size=batch_size
-    )
-    for _, row in gen:
-        yield row
+    # kvfile hands each item back before it serialises it, so what is stored must not be
+    # the object that travels on downstream (a later step may modify it in place)
+    originals = collections.deque()
+
+    def copies():
+        for idx, row in enumerate(resource):
+            originals.append(row)
+            yield '{:08x}'.format(idx), copy.deepcopy(row)
+
+    for _ in db.insert_generator(copies(), batch_size=batch_size):
+        yield originals.popleft()
 
 
 def loader(db):
